@@ -17,8 +17,10 @@ CLAIMED["C07"] = dict(
     text="Deductive proof over a symbolic path string: both router entry points (real AST) equal one spec predicate built "
          "from the statement, with os.path.splitext and mimetypes.guess_type uninterpreted (so: for every MIME database); "
          "alias=base, per-extension routing and documentation tables as lemmas / ground table invariants.",
-    note="Assumed: splitext axioms A1-A3 (+A5 instances), guess_type total/deterministic, importlib succeeds for registry modules; "
-         "str.lower uninterpreted; pyvc engine, z3 sequence solver, cvc5.",
+    note="Assumed: splitext A5 instances in the alias/extension lemmas (A1-A3 are discharged on the host interpreter's "
+         "genericpath._splitext / posixpath.splitext source; os.path taken to be posixpath), str.rfind by definition, "
+         "guess_type total/deterministic, importlib succeeds for registry modules; "
+         "str.lower uninterpreted (idempotent); pyvc engine, z3 sequence solver, cvc5.",
     technique="contract-based deductive verification: AST->VC generation over the real source, string VCs in z3/cvc5",
     design="DESIGN.md §3 C07")
 CLAIMED["C20"] = dict(
